@@ -38,7 +38,12 @@ RULE = ("case kinds: smallm (cone, α, vi, vj), delta (cone, α, value set), cov
         "the array handed over as same object / copy / float32 / Fortran order / strided view: every answer "
         "must be the model's answer for that call's own arguments), enduser (the REAL OrderingCone built from "
         "diag(c)·W0 with per-row scales 0.25…4, its own α: get_delta / ε-F1 exactly as a user calls them must be "
-        "invariant under the row scaling and equal the model's gaps for an independently known α). Cones: integer-row cones "
+        "invariant under the row scaling and equal the model's gaps for an independently known α), translate (a "
+        "lattice value set and the same set plus a common offset odd·2^12…2^20 per coordinate: all subtractions "
+        "exact, so gaps / scores must be bit-identical and equal the model's on the translated values; a quarter "
+        "of the delta / f1 / hv cases carry such an offset too), afteruse (the order object after it has been "
+        "handed to the constructors of the algorithm classes, two objects sharing it, optionally one step: W and "
+        "α unchanged bit for bit and gaps / F1 with the USED order equal the model's). Cones: integer-row cones "
         "(harness/cones.py + scaled/flat ones) with dyadic value sets (float path exact, compared with ==) and "
         "the bundled orders and rotated orthonormal cones (Pythagorean rotations of the orthant in 2-D / 3-D, square "
         "orthonormal non-permutation W) with their real float W and solver α exported exactly (1e-12 / band); "
@@ -270,6 +275,35 @@ def value_set(rng, W, n, p):
     return shape, X
 
 
+def on_lattice(mu) -> bool:
+    a = np.array(mu, dtype=float)
+    return bool(a.size == 0 or (np.all(a * 64 == np.round(a * 64)) and np.all(np.abs(a) <= 1024)))
+
+
+def big_offset(rng, m):
+    """a common translation, odd·2^k per coordinate with k = 12…20: values O(1e4…5e6), differences unchanged"""
+    return [rng.choice([-1.0, 1.0]) * rng.choice([1, 3, 5]) * 2.0 ** rng.randint(12, 20) for _ in range(m)]
+
+
+def translate(mu, off):
+    """mu + off if every addition (and hence every later subtraction) is exact, else None"""
+    a = np.array(mu, dtype=float)
+    b = a + np.array(off, dtype=float)
+    if on_lattice(mu) and np.array_equal(b - np.array(off, dtype=float), a):
+        return b.tolist()
+    return None
+
+
+def maybe_offset(rng, mu, shape, prob=0.25):
+    """with probability `prob` translate a lattice value set by a large common offset (raw, unstandardised
+    objectives): the gaps / coverage / scores depend on differences only"""
+    if mu and rng.random() < prob:
+        t = translate(mu, big_offset(rng, len(mu[0])))
+        if t is not None:
+            return t, shape + "+offset"
+    return mu, shape
+
+
 # --------------------------------------------------------------------------------------------- generation
 def gen(ctx):
     rng = ctx.rng
@@ -320,6 +354,7 @@ def gen(ctx):
         mode, alpha = alpha_choice(rng, name, len(W))
         n = rng.randint(1, 8)
         shape, mu = value_set(rng, W, n, rng.choice([0, 1, 3]))
+        mu, shape = maybe_offset(rng, mu, shape)
         yield {"kind": "delta", "cone": name, "W": W, "alpha": alpha, "alpha_mode": mode, "mu": mu,
                "exactW": exactW, "shape": shape}
 
@@ -372,6 +407,7 @@ def gen(ctx):
         mode, alpha = alpha_choice(rng, name, N)
         n = rng.randint(1, 7)
         shape, mu = value_set(rng, W, n, rng.choice([0, 1, 2]))
+        mu, shape = maybe_offset(rng, mu, shape)
         order = make_order(W, alpha)
         truth = sorted(int(i) for i in order.get_pareto_set(np.array(mu, dtype=float)))
         pshape = rng.choice(["true", "true", "subset", "superset", "shuffled", "empty", "all", "dups", "random",
@@ -424,6 +460,7 @@ def gen(ctx):
         W, _, exactW = cone_info(name)
         n = rng.randint(1, 8)
         shape, f = value_set(rng, W, n, rng.choice([0, 1]))
+        f, shape = maybe_offset(rng, f, shape)
         sub = [i for i in range(n) if rng.random() < 0.6]
         yield {"kind": "hv", "cone": name, "W": W, "f": f, "subset": sub, "shape": shape}
 
@@ -435,6 +472,41 @@ def gen(ctx):
                "coef": [core.dyadic(rng, -8, 8, 2) for _ in range(6)],
                "model": rng.choice(["exact", "shift", "swap", "noisy"]),
                "shift": [core.dyadic(rng, -4, 4, 2) for _ in range(4)]}
+
+    # ---- TRANSLATION: gaps, coverage and scores are functions of differences only
+    for _ in range(ctx.n(30, 1200)):
+        name, W, _, exactW = pick_cone(ALPHA_CONES)
+        mode, alpha = alpha_choice(rng, name, len(W))
+        n = rng.randint(2, 7)
+        for _try in range(5):
+            shape, mu = value_set(rng, W, n, rng.choice([0, 1, 2]))
+            if on_lattice(mu):
+                break
+        else:
+            mu = [lattice_vec(rng, len(W[0]), 1) for _ in range(n)]
+        off = big_offset(rng, len(W[0]))
+        if rng.random() < 0.2:  # offset in one coordinate only / the readme's raw-objective scale
+            off[rng.randrange(len(off))] = 0.0
+        pshape = rng.choice(["true", "all", "random", "true+worst"])
+        yield {"kind": "translate", "cone": name, "W": W, "alpha": alpha, "alpha_mode": mode, "exactW": exactW,
+               "mu": mu, "offset": off, "shape": shape, "pred_shape": pshape, "pick": rng.random(),
+               "eps": sorted({0.0, core.dyadic(rng, 0, 12, 2), core.dyadic(rng, 0, 40, 3)})}
+
+    # ---- AFTER USE: the order object scored with after it has been handed to algorithm constructors
+    names = list(AFTERUSE_ALGS)
+    for k in range(ctx.n(4, 60)):
+        k0 = 3 * (k * ctx.nworkers + ctx.worker)
+        algs = [[names[(k0 + t) % len(names)], rng.choice([0.5, 0.25, 0.125])] for t in range(3)]
+        algs.append([algs[0][0], rng.choice([0.5, 0.25])])  # a second object of the same class on the same order
+        cname = rng.choice(["theta60", "theta45", "theta120", "acute2", "obtuse2", "orthant2", "skew2", "scaled2",
+                            "rot2_53", "rot2_23", "comp2"])
+        W, real, exactW = cone_info(cname)
+        n = rng.randint(4, 6)
+        shape, mu = value_set(rng, W, n, rng.choice([0, 1, 2]))
+        yield {"kind": "afteruse", "cone": cname, "W": W, "alpha": list(real), "exactW": exactW, "mu": mu,
+               "algs": algs, "step": rng.random() < 0.7, "seed": rng.randrange(10 ** 6), "shape": shape,
+               "pred_shape": rng.choice(["true", "all", "random"]), "pick": rng.random(),
+               "eps": sorted({0.0, core.dyadic(rng, 0, 12, 2), core.dyadic(rng, 0, 40, 3)})}
 
     # ---- END-USER path: the REAL OrderingCone (its own get_alpha_vec) built from non-unit rows
     pool = [c for c in ALPHA_CONES if c not in ("halfplane2", "wedge3")]
@@ -528,7 +600,8 @@ def run_case(ctx, case):
     ctx.count("kind_" + kind)
     ctx.count("cone_" + case["cone"])
     {"smallm": run_smallm, "delta": run_delta, "cover": run_cover, "uncov": run_uncov, "f1": run_f1,
-     "hv": run_hv, "hvmodel": run_hvmodel, "history": run_history, "enduser": run_enduser}[kind](ctx, case)
+     "hv": run_hv, "hvmodel": run_hvmodel, "history": run_history, "enduser": run_enduser,
+     "translate": run_translate, "afteruse": run_afteruse}[kind](ctx, case)
 
 
 def _classify_gap(ctx, case, what, got, spec: Fr, bro: Fr, exact, where):
@@ -907,6 +980,183 @@ def run_f1(ctx, case):
             _viol(ctx, "f1-monotone", "ε-F1 decreases as ε grows", case,
                           detail={"eps": [e1, e2], "values": [v1, v2]})
     ctx.case_done(case, nontrivial, canon=[W, alpha, case["mu"], truth, pred, case["eps"]])
+
+
+# --------------------------------------------------------------------------------------------- translation
+def _pick_pred(ps, u, truth, n, worst=None):
+    if ps == "true":
+        return list(truth)
+    if ps == "all":
+        return list(range(n))
+    if ps == "true+worst":
+        return list(truth) + ([worst] if worst is not None and worst not in truth else [])
+    return [i for i in range(n) if (u * (i + 2) * 5.1) % 1 < 0.5]
+
+
+def run_translate(ctx, case):
+    """(R) gaps / ε-F1 of a translated value set equal those of the original set bit for bit when every
+    subtraction is exact, and equal the model's values for the translated set."""
+    from vopy.utils import get_delta, get_smallmij
+    from vopy.utils.evaluate import calculate_epsilonF1_score
+
+    W = np.array(case["W"], dtype=float)
+    acol = np.array(case["alpha"], dtype=float).reshape(-1, 1)
+    mu = np.array(case["mu"], dtype=float)
+    tr = translate(case["mu"], case["offset"])
+    if tr is None:
+        ctx.count("translate_inexact_skipped")
+        ctx.case_done(case, False)
+        return
+    mt = np.array(tr, dtype=float)
+    n = len(mu)
+    exact = bool(case["exactW"])
+    r, rt = call(get_delta, mu.copy(), W, acol), call(get_delta, mt.copy(), W, acol)
+    if r[0] == "exc" or rt[0] == "exc":
+        _viol(ctx, "delta-crash:" + core.exc_key((r if r[0] == "exc" else rt)[2]), "get_delta raised", case)
+        return
+    d, dt = np.ravel(r[1]), np.ravel(rt[1])
+    detail = {"offset": case["offset"], "original": [float(x) for x in d], "translated": [float(x) for x in dt]}
+    if not np.array_equal(d, dt):
+        _viol(ctx, "gap-translation-variant", "get_delta of the value set translated by a common offset (all "
+              "additions and subtractions exact) differs from get_delta of the original set: the gap depends on "
+              "differences v_j − v_i only", case, detail=detail)
+    dm = core.parse_qvec(ctx.ask("delta", core.qmat(mt), core.qmat(W), core.qvec(case["alpha"])))
+    if any(not same_value(dt[i], dm[i], exact) for i in range(n)):
+        _viol(ctx, "delta-value", "get_delta on a value set with a large common offset differs from the geometric "
+              "gaps of those values", case, detail={**detail, "model": [str(q) for q in dm]})
+    i, j = int(case["pick"] * n) % n, int(case["pick"] * 7919) % n
+    a, b = call(get_smallmij, mu[i], mu[j], W, acol), call(get_smallmij, mt[i], mt[j], W, acol)
+    if a[0] == "exc" or b[0] == "exc" or float(a[1]) != float(b[1]):
+        _viol(ctx, "gap-translation-variant", "get_smallmij changes under a common translation of both vectors", case,
+              detail={"offset": case["offset"], "i": i, "j": j, "original": str(a[1]), "translated": str(b[1])})
+    order = make_order(case["W"], case["alpha"])
+    truth = sorted(int(k) for k in order.get_pareto_set(mu.copy()))
+    worst = max(range(n), key=lambda k: dm[k])
+    pred = _pick_pred(case["pred_shape"], case["pick"], truth, n, worst)
+    missed = sorted(set(truth) - set(pred))
+    tab = _pair_table(ctx, tr, case["W"], missed, pred)
+    nontrivial = any(q > 0 for q in dm)
+    for eps in case["eps"]:
+        if not _robust_pairs(tab, eps):
+            ctx.count("translate_f1_borderline_skipped")
+            continue
+        f0 = call(calculate_epsilonF1_score, _DS(mu.copy()), order, list(truth), list(pred), eps)
+        f1 = call(calculate_epsilonF1_score, _DS(mt.copy()), order, list(truth), list(pred), eps)
+        ctx.count("translate_f1_compared")
+        if f0[0] == "exc" or f1[0] == "exc":
+            _viol(ctx, "f1-crash:" + core.exc_key((f0 if f0[0] == "exc" else f1)[2]),
+                  "calculate_epsilonF1_score raised", case, detail={"eps": eps})
+            continue
+        v0, v1 = float(f0[1]), float(f1[1])
+        if not (v0 == v1 or (v0 != v0 and v1 != v1)):
+            _viol(ctx, "gap-translation-variant", "ε-F1 changes under a pure translation of the value set (all "
+                  "subtractions exact)", case,
+                  detail={"offset": case["offset"], "eps": eps, "pred": pred, "truth": truth, "original": v0,
+                          "translated": v1})
+        if _gap_robust(dm, pred, F(eps), exact):
+            model = ctx.ask("f1", core.qmat(mt), core.qmat(W), core.qvec(case["alpha"]), core.nats(truth),
+                            core.nats(pred), core.q(eps))
+            if model not in ("unknown",) and not ((v1 != v1) if model == "nan" else v1 == float(Fr(model))):
+                _viol(ctx, "f1-value", "calculate_epsilonF1_score on a value set with a large common offset differs "
+                      "from the score built from the geometric gaps and ε-coverage", case,
+                      detail={"eps": eps, "pred": pred, "truth": truth, "code": v1, "model": model})
+    ctx.case_done(case, nontrivial, canon=[case["W"], case["alpha"], case["mu"], case["offset"], case["eps"]])
+
+
+# --------------------------------------------------------------------------------------------- after use
+AFTERUSE_ALGS = ["PaVeBa", "PaVeBaGP-IH", "PaVeBaGP-DE", "PaVeBaPartialGP-rect", "PaVeBaPartialGP-ell", "VOGP",
+                 "VOGP_AD", "NaiveElimination", "DecoupledGP", "EpsilonPAL", "Auer"]
+
+
+def _build_alg(name, order, Y, aeps):
+    from harness import stubs
+
+    X = np.linspace(0.0, 1.0, len(Y)).reshape(-1, 1)
+    if name == "VOGP_AD":
+        pr = stubs.SyntheticContinuousProblem(lambda x: np.stack([x[:, 0], 1.0 - x[:, 0]], axis=1), 1, 2, 0.01,
+                                              depth_max=2)
+        return stubs.build(name, problem=pr, order=order, epsilon=aeps, model="fixed")
+    if name in ("EpsilonPAL", "Auer"):
+        return stubs.build(name, in_data=X, out_data=Y, epsilon=aeps)
+    return stubs.build(name, in_data=X, out_data=Y, order=order, epsilon=aeps, model="fixed")
+
+
+def run_afteruse(ctx, case):
+    """The typical flow: build order → build algorithm(s) with it → (run) → score with the SAME order."""
+    from harness import stubs
+    from vopy.utils import get_delta
+    from vopy.utils.evaluate import calculate_epsilonF1_score
+
+    mu = np.array(case["mu"], dtype=float)
+    n = len(mu)
+    order = make_order(case["W"], case["alpha"])
+    order.ordering_cone.beta = 2.0  # NaiveElimination reads the cone's ordering complexity (ConeTheta2D.beta)
+    W_ref, a_ref = order.ordering_cone.W.copy(), order.ordering_cone.alpha.copy()
+    W_obj, a_obj = order.ordering_cone.W, order.ordering_cone.alpha
+    for name, aeps in case["algs"]:
+        ctx.count("afteruse_alg_" + name)
+        with warnings.catch_warnings():
+            warnings.simplefilter("ignore")
+            try:
+                alg = _build_alg(name, order, mu.copy(), aeps)
+            except Exception as e:  # noqa: BLE001  (constructors are other properties' business)
+                ctx.count("afteruse_build_failed_%s_%s_info" % (name, type(e).__name__))
+                alg = None
+            own = None
+            if alg is not None and name in ("EpsilonPAL", "Auer"):
+                own = (alg.order.ordering_cone, alg.order.ordering_cone.W.copy(), alg.order.ordering_cone.alpha.copy())
+            if alg is not None and case["step"]:
+                try:
+                    with stubs.seeded_noise(case["seed"]):
+                        alg.run_one_step()
+                    ctx.count("afteruse_step_ok")
+                except Exception as e:  # noqa: BLE001
+                    ctx.count("afteruse_step_failed_%s_%s_info" % (name, type(e).__name__))
+        oc = order.ordering_cone
+        if not (np.array_equal(oc.W, W_ref) and np.array_equal(np.ravel(oc.alpha), np.ravel(a_ref))
+                and np.shape(oc.alpha) == np.shape(a_ref) and np.array_equal(W_obj, W_ref)
+                and np.array_equal(a_obj, a_ref)):
+            _viol(ctx, "order-mutated-by-algorithm", "constructing / stepping an algorithm changed the W or α of the "
+                  "order object it was given (the same object is later used for gaps and ε-F1)", case,
+                  detail={"algorithm": name, "epsilon": aeps, "alpha_before": [float(a) for a in np.ravel(a_ref)],
+                          "alpha_after": [float(a) for a in np.ravel(oc.alpha)],
+                          "W_changed": not np.array_equal(oc.W, W_ref)})
+        if own is not None and not (np.array_equal(own[0].W, own[1]) and np.array_equal(own[0].alpha, own[2])
+                                    and np.allclose(own[2], 1.0, atol=1e-6)):
+            _viol(ctx, "order-mutated-by-algorithm", "the algorithm's own componentwise order changed during a step "
+                  "(or its α is not 1)", case, detail={"algorithm": name, "alpha": [float(a) for a in np.ravel(own[0].alpha)]})
+    # ---- the usual gap / F1 checks with the USED order object, against the α recorded before use
+    oc = order.ordering_cone
+    exact = bool(case["exactW"]) and on_lattice(case["mu"])
+    margs = (core.qmat(mu), core.qmat(W_ref), core.qvec(np.ravel(a_ref)))
+    dm = core.parse_qvec(ctx.ask("delta", *margs))
+    r = call(get_delta, mu.copy(), oc.W, oc.alpha)
+    if r[0] == "exc" or np.shape(r[1]) != (n, 1) or any(
+            not same_value(np.ravel(r[1])[i], dm[i], exact) for i in range(n)):
+        _viol(ctx, "gap-after-use", "get_delta(mu, cone.W, cone.alpha) with an order object that has been handed to "
+              "algorithm constructors differs from the geometric gaps of that cone", case,
+              detail={"algs": case["algs"], "code": str(np.ravel(r[1]) if r[0] == "ok" else r[1])[:300],
+                      "model": [float(q) for q in dm]})
+    truth = sorted(int(k) for k in order.get_pareto_set(mu.copy()))
+    pred = _pick_pred(case["pred_shape"], case["pick"], truth, n)
+    if case.get("pred") is not None:
+        pred = list(case["pred"])
+    tab = _pair_table(ctx, case["mu"], case["W"], sorted(set(truth) - set(pred)), pred)
+    for eps in case["eps"]:
+        if not (_robust_pairs(tab, eps) and _gap_robust(dm, pred, F(eps), exact)):
+            ctx.count("afteruse_f1_borderline_skipped")
+            continue
+        model = ctx.ask("f1", *margs, core.nats(truth), core.nats(pred), core.q(eps))
+        if model == "unknown":
+            continue
+        rf = call(calculate_epsilonF1_score, _DS(mu.copy()), order, list(truth), list(pred), eps)
+        ctx.count("afteruse_f1_compared")
+        if rf[0] == "exc" or not ((float(rf[1]) != float(rf[1])) if model == "nan" else float(rf[1]) == float(Fr(model))):
+            _viol(ctx, "f1-after-use", "calculate_epsilonF1_score with an order object that has been handed to "
+                  "algorithm constructors differs from the score built from the geometric gaps and ε-coverage", case,
+                  detail={"algs": case["algs"], "eps": eps, "pred": pred, "truth": truth, "code": str(rf[1]),
+                          "model": model})
+    ctx.case_done(case, any(q > 0 for q in dm), canon=[case["W"], case["mu"], case["algs"], case["eps"]])
 
 
 # --------------------------------------------------------------------------------------------- end-user path
